@@ -172,7 +172,7 @@ StepCreate ==
          contract == /\ ok
                      /\ Ev.result.location = meta.url \o "/nchf-convergedcharging/v3/chargingdata/" \o resp.ref
                      /\ (a.onetime \/ resp.ref # "")       \* (an event is answered under the collection itself)
-                     /\ Ev.result.seq = Ev.seq
+                     /\ Ev.result.seq = Ev.args.isn
      IN /\ pre' = obs /\ h' = h2
         /\ viol' = viol \cup StateClauses(obs, h2) \cup FileClausesAt(Ev.state, <<1, 0>>, TRUE)
               \cup (IF ok /\ ~RefFresh(h, resp.ref) THEN {V("C10", "ref_unique", [same_subscriber |-> h.sess[resp.ref].u = a.u])} ELSE {})
@@ -180,6 +180,19 @@ StepCreate ==
               \cup (IF ok /\ ~(\E i \in 1..Len(Ev.args.times) : OpTimeOK(newr.optime, Ev.args.times[i], Ev.args.tz))
                       THEN {V("C02", "opening_time", [tz |-> Ev.args.tz])} ELSE {})
         /\ div' = div \cup DivOf(exp, obs, resp)
+  /\ UNCHANGED meta
+
+\* a create with malformed content: refused with a 4xx, and the CHF's state (subscriber pool, registered notification
+\* URI, records, counters, accounts) is what it was
+StepBadCreate ==
+  /\ Ev.action = "badcreate"
+  /\ LET obs == ObsSt(Ev.state)
+         st4 == Ev.result.status >= 400 /\ Ev.result.status < 500
+     IN /\ pre' = obs /\ h' = h
+        /\ viol' = viol \cup StateClauses(obs, h)
+              \cup (IF st4 THEN {} ELSE {V("C12", "malformed_create_rejected", [kind |-> Ev.args.kind, status |-> Ev.result.status])})
+              \cup (IF st4 /\ obs # pre THEN {V("C12", "rejection_no_effect", [kind |-> Ev.args.kind, what |-> "create"])} ELSE {})
+        /\ div' = div
   /\ UNCHANGED meta
 
 StepUpdate ==
@@ -194,7 +207,7 @@ StepUpdate ==
          h2   == IF known THEN HUpdate(h, a, resp) ELSE h
          ok   == resp.status = 200
          partial == ok /\ Len(a.trig) > 0 /\ a.trig[Len(a.trig)] # "final" /\ \E i \in 1..Len(a.usage) : HasOnline(a.usage[i])
-         contract == ok /\ Ev.result.seq = Ev.seq /\ Ev.result.hasTs
+         contract == ok /\ Ev.result.seq = Ev.args.isn /\ Ev.result.hasTs
      IN /\ pre' = obs /\ h' = h2
         /\ viol' = viol \cup StateClauses(obs, h2) \cup FileClausesAt(Ev.state, <<Ev.args.lsnLo, Ev.args.lsnHi>>, FALSE)
               \cup (IF ok THEN GAClauses(pre, u, a.usage, resp.mui, a.trig, 1) ELSE {})
@@ -282,7 +295,7 @@ TInit == /\ l = 1 /\ viol = {} /\ div = {}
          /\ meta = [wb |-> FALSE, supis |-> EmptyFn, subs |-> EmptyFn, url |-> "", sink |-> ""]
 
 TNext == \/ (l <= Len(Trace) /\ l' = l + 1 /\
-               (Reset \/ StepCreate \/ StepUpdate \/ StepRelease \/ StepRecharge \/ StepTopUp))
+               (Reset \/ StepCreate \/ StepBadCreate \/ StepUpdate \/ StepRelease \/ StepRecharge \/ StepTopUp))
          \/ Finish
 TSpec == TInit /\ [][TNext]_tvars
 =============================================================================
